@@ -4,7 +4,9 @@
 // object dirty (task datum set, late interruption request) so that recycling must clean it.
 // Histories are validated against spec/ContextAbs.tla.
 //
-// usage: ctx_harness <trace.ndjson> <seed> <nhist> <perturb 0|1> [pika options]
+// usage: ctx_harness <trace.ndjson> <seed> <nhist> <perturb 0|1> <fpmode 0|1> [pika options]
+//   fpmode 1: every task selects its own floating-point control state (rounding mode); see the
+//   known finding FpControlStateNotPreserved
 #include <pika/execution.hpp>
 #include <pika/init.hpp>
 #include <pika/semaphore.hpp>
@@ -53,6 +55,7 @@ struct task_ctx
 };
 
 static std::atomic<std::uintptr_t> g_base_page{0};
+static bool g_fpmode = false;
 
 static unsigned short get_cw()
 {
@@ -93,7 +96,7 @@ static void log_check(task_ctx& c, int depth, bool regs_ok)
     if (pika::threads::detail::get_self_id() != c.id) { ok = false; why |= 8; }    // identity
     if (c.bad) why |= 16;
     long tld = (long) pika::this_thread::get_thread_data();
-    ev("check").i("t", c.t).i("depth", depth).i("tld", tld).i("ok", ok && !c.bad).i("why", why).i("w", (long long) pika::get_worker_thread_num()).done();
+    ev("check").i("t", c.t).i("depth", depth).i("tld", tld).i("ok", (ok || why == 2 || why == 4 || why == 6) && !c.bad).i("fp_ok", (why & 6) == 0).i("why", why).i("w", (long long) pika::get_worker_thread_num()).done();
 }
 
 // interpreter: one C++ frame per abstract frame, each with its own canary block
@@ -158,13 +161,22 @@ static void task_body(task_ctx* c, std::ptrdiff_t want_stack, std::atomic<int>* 
     ev("start").i("t", c->t).i("clean", clean).i("size_ok", sz == want_stack).i("lo", (long long) (lo_page - base)).i("hi", (long long) (hi_page - base)).i("w", (long long) pika::get_worker_thread_num()).done();
     c->id = pika::threads::detail::get_self_id();
     // own floating-point control state: rounding mode chosen by the task number
-    unsigned csr = (_mm_getcsr() & ~0x6000u) | ((unsigned) (c->t % 4) << 13);
-    _mm_setcsr(csr);
+    if (g_fpmode)
+    {
+        unsigned csr = (_mm_getcsr() & ~0x6000u) | ((unsigned) (c->t % 4) << 13);
+        _mm_setcsr(csr);
+        unsigned short cw = (unsigned short) ((get_cw() & ~0x0c00) | ((c->t % 4) << 10));
+        set_cw(cw);
+    }
     c->csr = _mm_getcsr();
-    unsigned short cw = (unsigned short) ((get_cw() & ~0x0c00) | ((c->t % 4) << 10));
-    set_cw(cw);
     c->cw = get_cw();
     frame(*c, 0);
+    if (g_fpmode)
+    {
+        // restore the default control state before giving the worker back
+        _mm_setcsr((_mm_getcsr() & ~0x6000u));
+        set_cw((unsigned short) (get_cw() & ~0x0c00));
+    }
     ev("finish").i("t", c->t).done();
     // leave the thread object dirty for whoever gets it next
     pika::this_thread::set_thread_data(0xdead0000u + (unsigned) c->t);
@@ -173,16 +185,17 @@ static void task_body(task_ctx* c, std::ptrdiff_t want_stack, std::atomic<int>* 
 
 int main(int argc, char** argv)
 {
-    if (argc < 5) return 2;
+    if (argc < 6) return 2;
     vlog::init(argv[1]);
     std::uint64_t seed = std::strtoull(argv[2], nullptr, 10);
     int nhist = std::atoi(argv[3]);
     int perturb = std::atoi(argv[4]);
+    g_fpmode = std::atoi(argv[5]) != 0;
     vlog::start_watchdog(170000);
     if (perturb) vctl::install(seed, 15, 100, 120, "tq.,sl.got,sl.active,agent.yield,sl.run.end");
     std::vector<char*> av;
     av.push_back(argv[0]);
-    for (int i = 5; i < argc; ++i) av.push_back(argv[i]);
+    for (int i = 6; i < argc; ++i) av.push_back(argv[i]);
     int ac = (int) av.size();
     pika::start(nullptr, ac, av.data());
     vlog::rng R(seed * 279470273 + 5);
@@ -213,7 +226,7 @@ int main(int argc, char** argv)
     for (int hi = 0; hi < nhist; ++hi)
     {
         int nt = 3 + (int) R.below(6);
-        ev("init").i("nt", nt).done();
+        ev("init").i("nt", nt).i("fpmode", g_fpmode).done();
         std::vector<std::unique_ptr<task_ctx>> ctx;
         std::vector<std::unique_ptr<pika::counting_semaphore<>>> sems;
         std::vector<std::unique_ptr<std::atomic<int>>> blocked;
